@@ -1,2 +1,289 @@
+/* vd <slot> <op> <args...> : vnadata_t through the public API only */
 #include "vh.h"
-int vh_vdata(void) { return -1; }
+
+#define NSLOT 8
+static vnadata_t *slot[NSLOT];
+
+static double complex parse_c(int i)
+{
+    return vh_parse_double(vh_tok[i]) + I * vh_parse_double(vh_tok[i + 1]);
+}
+
+static void result(bool ok)
+{
+    if (ok)
+	vh_out("ok cb=%d/%d", vh_cb_errors, vh_cb_warnings);
+    else
+	vh_out("fail %s cb=%d/%d", vh_errclass(errno), vh_cb_errors, vh_cb_warnings);
+}
+
+static void digest(vnadata_t *v)
+{
+    int rows = vnadata_get_rows(v), cols = vnadata_get_columns(v);
+    int fr = vnadata_get_frequencies(v);
+    int ports = rows > cols ? rows : cols;
+
+    vh_out("ok type=%d rows=%d cols=%d freqs=%d fz0=%d ft=%d fp=%d dp=%d F", (int)vnadata_get_type(v), rows, cols, fr,
+	    (int)vnadata_has_fz0(v), (int)vnadata_get_filetype(v),
+	    vnadata_get_fprecision(v), vnadata_get_dprecision(v));
+    for (int f = 0; f < fr; ++f)
+	vh_out_double(vnadata_get_frequency(v, f));
+    vh_out(" D");
+    for (int f = 0; f < fr; ++f)
+	for (int r = 0; r < rows; ++r)
+	    for (int c = 0; c < cols; ++c)
+		vh_out_complex(vnadata_get_cell(v, f, r, c));
+    vh_out(" Z");
+    if (vnadata_has_fz0(v)) {
+	for (int f = 0; f < fr; ++f)
+	    for (int p = 0; p < ports; ++p)
+		vh_out_complex(vnadata_get_fz0(v, f, p));
+    } else {
+	for (int p = 0; p < ports; ++p)
+	    vh_out_complex(vnadata_get_z0(v, p));
+    }
+}
+
+int vh_vdata(void)
+{
+    int s;
+    const char *op;
+    vnadata_t *v;
+    int na = vh_ntok - 3;
+    char **a = vh_tok + 3;
+
+    if (vh_ntok < 3)
+	return -1;
+    s = (int)vh_parse_long(vh_tok[1]);
+    op = vh_tok[2];
+    if (s < 0 || s >= NSLOT)
+	return -1;
+    vh_cb_reset();
+    errno = 0;
+    if (strcmp(op, "alloc") == 0) {
+	if (slot[s] != NULL)
+	    return -1;
+	LIB(slot[s] = vnadata_alloc(vh_error_fn, NULL));
+	result(slot[s] != NULL);
+	return 0;
+    }
+    if ((v = slot[s]) == NULL)
+	return -1;
+    if (strcmp(op, "free") == 0) {
+	LIB(vnadata_free(v));
+	slot[s] = NULL;
+	result(true);
+	return 0;
+    }
+#define I4(f) do { int rc; if (na != 4) return -1; LIB(rc = f(v, (int)vh_parse_long(a[0]), (int)vh_parse_long(a[1]), \
+	(int)vh_parse_long(a[2]), (int)vh_parse_long(a[3]))); result(rc == 0); return 0; } while (0)
+    if (strcmp(op, "init") == 0) I4(vnadata_init);
+    if (strcmp(op, "resize") == 0) I4(vnadata_resize);
+    if (strcmp(op, "set_type") == 0) {
+	int rc;
+	if (na != 1) return -1;
+	LIB(rc = vnadata_set_type(v, (int)vh_parse_long(a[0])));
+	result(rc == 0);
+	return 0;
+    }
+    if (strcmp(op, "add_frequency") == 0) {
+	int rc;
+	if (na != 1) return -1;
+	LIB(rc = vnadata_add_frequency(v, vh_parse_double(a[0])));
+	result(rc == 0);
+	return 0;
+    }
+    if (strcmp(op, "get_frequency") == 0) {
+	double d;
+	if (na != 1) return -1;
+	LIB(d = vnadata_get_frequency(v, (int)vh_parse_long(a[0])));
+	result(d != HUGE_VAL);
+	if (d != HUGE_VAL) vh_out_double(d);
+	return 0;
+    }
+    if (strcmp(op, "get_fmin") == 0 || strcmp(op, "get_fmax") == 0) {
+	double d;
+	LIB(d = op[6] == 'i' ? vnadata_get_fmin(v) : vnadata_get_fmax(v));
+	result(d != HUGE_VAL);
+	if (d != HUGE_VAL) vh_out_double(d);
+	return 0;
+    }
+    if (strcmp(op, "set_frequency") == 0) {
+	int rc;
+	if (na != 2) return -1;
+	LIB(rc = vnadata_set_frequency(v, (int)vh_parse_long(a[0]), vh_parse_double(a[1])));
+	result(rc == 0);
+	return 0;
+    }
+    if (strcmp(op, "set_frequency_vector") == 0) {
+	int rc, n = vnadata_get_frequencies(v);
+	double *x;
+	if (na != n) return -1;
+	x = malloc(sizeof(double) * (n + 1));
+	for (int i = 0; i < n; ++i) x[i] = vh_parse_double(a[i]);
+	LIB(rc = vnadata_set_frequency_vector(v, x));
+	free(x);
+	result(rc == 0);
+	return 0;
+    }
+    if (strcmp(op, "get_cell") == 0) {
+	double complex z;
+	if (na != 3) return -1;
+	LIB(z = vnadata_get_cell(v, (int)vh_parse_long(a[0]), (int)vh_parse_long(a[1]), (int)vh_parse_long(a[2])));
+	result(creal(z) != HUGE_VAL);
+	if (creal(z) != HUGE_VAL) vh_out_complex(z);
+	return 0;
+    }
+    if (strcmp(op, "set_cell") == 0) {
+	int rc;
+	if (na != 5) return -1;
+	LIB(rc = vnadata_set_cell(v, (int)vh_parse_long(a[0]), (int)vh_parse_long(a[1]), (int)vh_parse_long(a[2]),
+		    parse_c(6)));
+	result(rc == 0);
+	return 0;
+    }
+    if (strcmp(op, "get_matrix") == 0) {
+	double complex *m;
+	int cells = vnadata_get_rows(v) * vnadata_get_columns(v);
+	if (na != 1) return -1;
+	LIB(m = vnadata_get_matrix(v, (int)vh_parse_long(a[0])));
+	/* with zero cells a NULL row pointer is a legitimate success value; tell the cases apart by errno */
+	result(m != NULL || (cells == 0 && vh_cb_errors == 0));
+	if (m != NULL)
+	    for (int i = 0; i < cells; ++i) vh_out_complex(m[i]);
+	return 0;
+    }
+    if (strcmp(op, "set_matrix") == 0) {
+	int rc, cells = vnadata_get_rows(v) * vnadata_get_columns(v);
+	double complex *m;
+	if (na != 1 + 2 * cells) return -1;
+	m = malloc(sizeof(double complex) * (cells + 1));
+	for (int i = 0; i < cells; ++i) m[i] = parse_c(4 + 2 * i);
+	LIB(rc = vnadata_set_matrix(v, (int)vh_parse_long(a[0]), m));
+	free(m);
+	result(rc == 0);
+	return 0;
+    }
+    if (strcmp(op, "get_to_vector") == 0) {
+	int rc, n = vnadata_get_frequencies(v);
+	double complex *x;
+	if (na != 2) return -1;
+	x = malloc(sizeof(double complex) * (n + 1));
+	LIB(rc = vnadata_get_to_vector(v, (int)vh_parse_long(a[0]), (int)vh_parse_long(a[1]), x));
+	result(rc == 0);
+	if (rc == 0) for (int i = 0; i < n; ++i) vh_out_complex(x[i]);
+	free(x);
+	return 0;
+    }
+    if (strcmp(op, "set_from_vector") == 0) {
+	int rc, n = vnadata_get_frequencies(v);
+	double complex *x;
+	if (na != 2 + 2 * n) return -1;
+	x = malloc(sizeof(double complex) * (n + 1));
+	for (int i = 0; i < n; ++i) x[i] = parse_c(5 + 2 * i);
+	LIB(rc = vnadata_set_from_vector(v, (int)vh_parse_long(a[0]), (int)vh_parse_long(a[1]), x));
+	free(x);
+	result(rc == 0);
+	return 0;
+    }
+    if (strcmp(op, "get_z0") == 0) {
+	double complex z;
+	if (na != 1) return -1;
+	LIB(z = vnadata_get_z0(v, (int)vh_parse_long(a[0])));
+	result(creal(z) != HUGE_VAL);
+	if (creal(z) != HUGE_VAL) vh_out_complex(z);
+	return 0;
+    }
+    if (strcmp(op, "set_z0") == 0) {
+	int rc;
+	if (na != 3) return -1;
+	LIB(rc = vnadata_set_z0(v, (int)vh_parse_long(a[0]), parse_c(4)));
+	result(rc == 0);
+	return 0;
+    }
+    if (strcmp(op, "set_all_z0") == 0) {
+	int rc;
+	if (na != 2) return -1;
+	LIB(rc = vnadata_set_all_z0(v, parse_c(3)));
+	result(rc == 0);
+	return 0;
+    }
+    if (strcmp(op, "get_z0_vector") == 0) {
+	const double complex *z;
+	int rows = vnadata_get_rows(v), cols = vnadata_get_columns(v);
+	int ports = rows > cols ? rows : cols;
+	LIB(z = vnadata_get_z0_vector(v));
+	result(z != NULL || (ports == 0 && vh_cb_errors == 0));
+	if (z != NULL) for (int i = 0; i < ports; ++i) vh_out_complex(z[i]);
+	return 0;
+    }
+    if (strcmp(op, "set_z0_vector") == 0 || strcmp(op, "set_fz0_vector") == 0) {
+	int rc, off = op[4] == 'f' ? 1 : 0;
+	int rows = vnadata_get_rows(v), cols = vnadata_get_columns(v);
+	int ports = rows > cols ? rows : cols;
+	double complex *z;
+	if (na != off + 2 * ports) return -1;
+	z = malloc(sizeof(double complex) * (ports + 1));
+	for (int i = 0; i < ports; ++i) z[i] = parse_c(3 + off + 2 * i);
+	if (off) LIB(rc = vnadata_set_fz0_vector(v, (int)vh_parse_long(a[0]), z));
+	else LIB(rc = vnadata_set_z0_vector(v, z));
+	free(z);
+	result(rc == 0);
+	return 0;
+    }
+    if (strcmp(op, "has_fz0") == 0) {
+	bool b;
+	LIB(b = vnadata_has_fz0(v));
+	result(true);
+	vh_out(" %d", (int)b);
+	return 0;
+    }
+    if (strcmp(op, "get_fz0") == 0) {
+	double complex z;
+	if (na != 2) return -1;
+	LIB(z = vnadata_get_fz0(v, (int)vh_parse_long(a[0]), (int)vh_parse_long(a[1])));
+	result(creal(z) != HUGE_VAL);
+	if (creal(z) != HUGE_VAL) vh_out_complex(z);
+	return 0;
+    }
+    if (strcmp(op, "set_fz0") == 0) {
+	int rc;
+	if (na != 4) return -1;
+	LIB(rc = vnadata_set_fz0(v, (int)vh_parse_long(a[0]), (int)vh_parse_long(a[1]), parse_c(5)));
+	result(rc == 0);
+	return 0;
+    }
+    if (strcmp(op, "get_fz0_vector") == 0) {
+	const double complex *z;
+	int rows = vnadata_get_rows(v), cols = vnadata_get_columns(v);
+	int ports = rows > cols ? rows : cols;
+	if (na != 1) return -1;
+	LIB(z = vnadata_get_fz0_vector(v, (int)vh_parse_long(a[0])));
+	result(z != NULL || (ports == 0 && vh_cb_errors == 0));
+	if (z != NULL) for (int i = 0; i < ports; ++i) vh_out_complex(z[i]);
+	return 0;
+    }
+    if (strcmp(op, "set_filetype") == 0 || strcmp(op, "set_fprecision") == 0 || strcmp(op, "set_dprecision") == 0) {
+	int rc, x;
+	if (na != 1) return -1;
+	x = (int)vh_parse_long(a[0]);
+	LIB(rc = op[5] == 'i' ? vnadata_set_filetype(v, x) : op[4] == 'f' ? vnadata_set_fprecision(v, x) :
+		vnadata_set_dprecision(v, x));
+	result(rc == 0);
+	return 0;
+    }
+    if (strcmp(op, "convert") == 0) {	/* vd <src> convert <dst> <type> */
+	int rc, d;
+	if (na != 2) return -1;
+	d = (int)vh_parse_long(a[0]);
+	if (d < 0 || d >= NSLOT || slot[d] == NULL) return -1;
+	LIB(rc = vnadata_convert(v, slot[d], (int)vh_parse_long(a[1])));
+	result(rc == 0);
+	return 0;
+    }
+    if (strcmp(op, "digest") == 0) {
+	LIB(digest(v));
+	return 0;
+    }
+    return -1;
+}
